@@ -110,19 +110,37 @@ func c07Cases(thorough bool) []c07Case {
 		"a = [1]; i=0; while i < 600 { a.push(i); i = i + 1 }; a.len()", "a = [0]*500; i = 0; while 1 { a = [a, a, a]; i = i + 1 }"} {
 		add("grow-container", p, false, "", false)
 	}
+	// walks over a big value (printing, template holes, comparison, the process text of computed values) cost one operation whatever
+	// the size of the value: 512 arrays of 512 elements are built within the budget and the limits, then walked in a loop
+	// (loops are nested: a loop body leaves its statement values on the operand stack until the loop ends)
+	build := "vv=[]; i=0; while i<32 { j=0; while j<16 { vv.push([0]*512); j=j+1 }; i=i+1 }; "
+	for _, p := range []string{build + "while 1 { j=0; while j<100 { toStr(vv); j=j+1 } }", build + "while 1 { j=0; while j<100 { `{vv}`; j=j+1 } }"} {
+		add("uncharged-walk", p, false, "", false)
+	}
+	// errors inside nested evaluations: the count of the work done before the error reaches the caller
+	for _, p := range []string{"func g() { 20000d6; 20000d6 }; g()", "func g() { 200d6; 1/0 }; g()", "&c = 20000d6 + 20000d6; c", "&c = 200d6 + [1][5]; c", "func g() { 150d6; h() }; func h() { 150d6; null + 1 }; g()",
+		"`{% 20000d6; 20000d6 %}`", "func g() { 100d6; zz9() }; g()", "&c = 120d6 + d; d = 'x'; c"} {
+		add("nested-error", p, false, "", false)
+	}
+	// growth through slice assignment (one operation may not build more than the length limit)
+	for _, p := range []string{"a=[1]; i=0; while i<40 { a[0:0]=a; i=i+1 }; 1", "a=[1]; i=0; while 1 { a[0:0]=a; i=i+1 }", "a=[1,2]; i=0; while i<60 { a[1:1]=a; a[0:0]=a; i=i+1 }; 1",
+		"a=[0]*500; i=0; while i<30 { a[0:1]=a; i=i+1 }; 1"} {
+		add("grow-container", p, false, "", false)
+	}
 	// values that contain themselves or share substructure: every walk over a value (attribute lookup along __proto__,
 	// comparison, printing) must be bounded by the number of OBJECTS, not by the number of paths through them
-	for _, p := range []string{"a = {}; a.__proto__ = a; a.x", "a = {}; b = {}; a.__proto__ = b; b.__proto__ = a; a.x", "a = {'k':1}; a.__proto__ = a; a.len()", "a = {}; a.__proto__ = a; while 1 { a.x }",
-		"a=[1]; a.push(a); b=[1]; b.push(b); a==b", "a={}; a.k=a; b={}; b.k=b; a==b", "a=[1]; a.push(a); b=[1]; b.push(b); a!=b", "a=[1]; a.push(a); b=[1]; b.push(b); [a]==[b]",
-		"a=[1]; b=[1]; i=0; while i<64 { a=[a,a]; b=[b,b]; i=i+1 }; a==b", "a={'k':1}; b={'k':1}; i=0; while i<64 { a={'x':a,'y':a}; b={'x':b,'y':b}; i=i+1 }; a==b",
+	for _, p := range []string{"a = {}; a.__proto__ = a; a.x", "a = {}; w = {}; a.__proto__ = w; w.__proto__ = a; a.x", "a = {'k':1}; a.__proto__ = a; a.len()", "a = {}; a.__proto__ = a; while 1 { a.x }",
+		"a=[1]; a.push(a); w=[1]; w.push(w); a==w", "a={}; a.k=a; w={}; w.k=w; a==w", "a=[1]; a.push(a); w=[1]; w.push(w); a!=w", "a=[1]; a.push(a); w=[1]; w.push(w); [a]==[w]",
+		"a=[1]; w=[1]; i=0; while i<64 { a=[a,a]; w=[w,w]; i=i+1 }; a==w", "a={'k':1}; w={'k':1}; i=0; while i<64 { a={'x':a,'y':a}; w={'x':w,'y':w}; i=i+1 }; a==w",
 		"a=[1]; i=0; while i<64 { a=[a,a]; i=i+1 }; repr(a); 1", "a=[1]; i=0; while i<64 { a=[a,a]; i=i+1 }; `{a}`; 1", "a=[1]; i=0; while i<64 { a=[a,a]; i=i+1 }; a.sum(); 1",
-		"p = {}; i = 0; while i < 1500 { q = {}; q.__proto__ = p; p = q; i = i + 1 }; while 1 { p.zz }", "a=[1]; a.push(a); a+a; a*3; a.shuffle(); a.rand(); toStr(a); 1"} {
+		"pr = {}; i = 0; while i < 40 { j = 0; while j < 40 { q = {}; q.__proto__ = pr; pr = q; j = j + 1 }; i = i + 1 }; while 1 { j = 0; while j < 100 { pr.zz; j = j + 1 } }", "a=[1]; a.push(a); a+a; a*3; a.shuffle(); a.rand(); toStr(a); 1"} {
 		add("cyclic", p, false, "", false)
 	}
 	// container lengths: repetition, concatenation and ranges build at most 512 elements in one operation, whatever the operands
 	for _, p := range []string{"([1,2]*256).len()", "([1,2]*257).len()", "([1,2]*300).len()", "([1,2,3,4]*512).len()", "(171*[1,2,3]).len()", "(300*[1,2]).len()", "([0]*512).len()", "([0]*513).len()",
 		"([1,2,3,4,5,6,7]*74).len()", "a=[0]*300; (a+a).len()", "a=[0]*256; b=a+a; (b+[1]).len()", "a=[0]*512; (a+[]).len()", "a=[0]*511; (a+[1,2]).len()", "[1..512].len()", "[1..513].len()", "[0..512].len()",
 		"[513..1].len()", "[-256..256].len()", "a=[1,2]; i=0; while i<12 { a=a*2; i=i+1 }; a.len()", "a=[1,2,3]; i=0; while i<12 { a=2*a; i=i+1 }; a.len()", "a=[1,2]; i=0; while i<12 { a=a+a; i=i+1 }; a.len()",
+		"a=[0]*300; a[0:0]=a; a.len()", "a=[0]*512; a[0:0]=[1]; a.len()", "a=[0]*256; a[0:0]=a; a.len()", "a=[0]*512; a[0:2]=[1]; a.len()", "a=[0]*400; a[10:20]=a; a.len()", "a=[0]*510; a[5:5]=[1,2,3]; a.len()",
 		"x=[1,2,3]; n=200; (x*n).len()", "func rp(v, n) { v * n }; rp([1,2], 400).len()", "`{([1,2]*400).len()}`", "&cv = [1,2,3]*250; cv.len()"} {
 		before := len(cs)
 		add("container-cap", p, false, "", false)
